@@ -640,6 +640,10 @@ SPECS["C14"] = dict(
         "Woodpile.Props.C14.now_same_rule",
         "Woodpile.Props.C14.wrap_counterexample",
         "Woodpile.Props.C14.trunc_counterexample",
+        # track misc2 (claim-audit gap 20): raffle tags and the calendar range re-extracted from the resolved crates
+        "Woodpile.Props.C14.raffle_consts",
+        "Woodpile.Props.C14.raffle_names",
+        "Woodpile.Props.C14.local_range_consts",
     ],
     families=[dict(name="vtime", quick=3000, thorough=400000)],
     technique=("Lean 4 proof (integer/UInt64 arithmetic over all local times x 2^64 base times x 2^64 vouchers; ring identities "
